@@ -11,8 +11,11 @@ mod ops_migrate;
 mod ops_action;
 mod ops_http;
 mod ops_lsp;
+mod ops_fuzz;
 
 use std::io::{BufRead, Write};
+thread_local! { static LAST_PANIC: std::cell::RefCell<String> = const { std::cell::RefCell::new(String::new()) }; }
+use util::hex;
 
 fn main() {
     let args: Vec<String> = std::env::args().collect();
@@ -29,7 +32,13 @@ fn main() {
 
 fn serve() {
     // silence panic messages (they are counted, not printed)
-    std::panic::set_hook(Box::new(|_| {}));
+    // the panic message and location of the last caught panic (reported as PANIC:<location>:<message>)
+    std::panic::set_hook(Box::new(|info| {
+        let loc = info.location().map(|l| format!("{}:{}", l.file().rsplit("/src/").next().unwrap_or(l.file()), l.line())).unwrap_or_default();
+        let crate_ = info.location().map(|l| l.file().split('/').rev().find(|p| p.contains("-0.") || p.contains("-1.") || *p == "repo").unwrap_or("").to_string()).unwrap_or_default();
+        let msg = info.payload().downcast_ref::<&str>().map(|s| s.to_string()).or_else(|| info.payload().downcast_ref::<String>().cloned()).unwrap_or_default();
+        LAST_PANIC.with(|p| *p.borrow_mut() = format!("{crate_}/{loc}: {}", msg.chars().take(120).collect::<String>()));
+    }));
     let stdin = std::io::stdin();
     let stdout = std::io::stdout();
     let mut out = std::io::BufWriter::new(stdout.lock());
@@ -37,11 +46,24 @@ fn serve() {
     let mut cst = ops_cache::CacheState::default();
     let mut qst = ops_claim::ClaimState::default();
     let mut lst = ops_lsp::LspState::default();
+    // watchdog: a request that does not complete within the budget is a hang; report it and stop
+    static OP_STARTED_MS: std::sync::atomic::AtomicU64 = std::sync::atomic::AtomicU64::new(0);
+    let t0 = std::time::Instant::now();
+    let budget_ms: u64 = std::env::var("VH_OP_BUDGET_MS").ok().and_then(|v| v.parse().ok()).unwrap_or(120_000);
+    std::thread::spawn(move || loop {
+        std::thread::sleep(std::time::Duration::from_millis(200));
+        let started = OP_STARTED_MS.load(std::sync::atomic::Ordering::SeqCst);
+        if started != 0 && (t0.elapsed().as_millis() as u64).saturating_sub(started) > budget_ms {
+            eprintln!("HANG");
+            std::process::exit(3);
+        }
+    });
     for line in stdin.lock().lines() {
         let line = line.expect("stdin");
         if line.is_empty() {
             continue;
         }
+        OP_STARTED_MS.store(t0.elapsed().as_millis() as u64 + 1, std::sync::atomic::Ordering::SeqCst);
         let mut it = line.split('\t');
         let op = it.next().unwrap().to_string();
         let fields: Vec<String> = it.map(util::unhex).collect();
@@ -64,6 +86,9 @@ fn serve() {
             if let Some(r) = ops_lsp::dispatch(&mut lst, &op, &fields) {
                 return r;
             }
+            if let Some(r) = ops_fuzz::dispatch(&op, &fields) {
+                return r;
+            }
             if let Some(r) = ops_http::dispatch(&op, &fields) {
                 return r;
             }
@@ -77,8 +102,10 @@ fn serve() {
         }));
         match res {
             Ok(s) => writeln!(out, "{}", s).unwrap(),
-            Err(_) => writeln!(out, "PANIC").unwrap(),
+            Err(_) => writeln!(out, "PANIC {}", hex(&LAST_PANIC.with(|p| p.borrow().clone()))).unwrap(),
         }
+        OP_STARTED_MS.store(0, std::sync::atomic::Ordering::SeqCst);
+        out.flush().unwrap();
     }
     out.flush().unwrap();
 }
